@@ -14,9 +14,31 @@ use super::super::session::history;
 use super::c14::parse_info;
 use super::{common_stats, go_views, Outcome, Violation};
 
+/// Bench positions of middling size, searched one ply deeper than bench does: the
+/// "large search" family used by the cross-process stage (case index >= LARGE_BASE).
+pub const LARGE_BASE: u64 = 1_000_000;
+pub const LARGE: [usize; 6] = [43, 47, 22, 12, 20, 8];
+
 pub fn generate(cx: &super::GenCtx) -> Vec<Plan> {
     let seed = cx.seed;
     let mut rng = Rng::new(seed);
+    if cx.index >= LARGE_BASE {
+        let fen = gen::BENCH_FENS[LARGE[((cx.index - LARGE_BASE) % 6) as usize]];
+        let mut p = Plan::new("C16", seed);
+        p.script = vec![
+            Action::send(format!("position fen {fen}")),
+            Action::send("go depth 7"),
+            Action::WaitBestmove,
+            Action::WaitIdle,
+            Action::send("quit"),
+        ];
+        p.cost_ns = 1000;
+        p.policy = Some(Policy::Quiet);
+        p.step_cap = 200_000_000;
+        p.tick_cap = 800_000_000;
+        p.params = J::obj().set("noise", false).set("depth", 7u64).set("large", true);
+        return vec![p];
+    }
     let spec = gen::random_posspec(&mut rng);
     let d = if spec.dense {
         *rng.pick(&[1u64, 2, 2, 3, 3, 3, 4])
@@ -108,6 +130,7 @@ pub fn result_digest(infos: &[String], bestmove: Option<&str>) -> String {
 pub fn check(plans: &[Plan], recs: &[RunRec]) -> Outcome {
     let mut out = Outcome::default();
     let mut digests: Vec<(usize, String)> = vec![];
+    let mut keys: Vec<String> = vec![];
     let mut capped = false;
     for (pi, (plan, rec)) in plans.iter().zip(recs).enumerate() {
         common_stats(plan, rec, &mut out.stats);
@@ -128,6 +151,13 @@ pub fn check(plans: &[Plan], recs: &[RunRec]) -> Outcome {
             capped = true;
             continue;
         }
+        // only searches of the same position with the same go line are comparable
+        let key = format!(
+            "{} :: {}",
+            v.pos.as_ref().map_or("?".to_string(), super::super::refmodel::Pos::to_fen),
+            v.text
+        );
+        keys.push(key);
         digests.push((pi, result_digest(&infos, best)));
         out.stats.inc("environments");
         out.stats.add("search_nodes_compared", infos.iter().filter_map(|i| parse_info(i).ok()).map(|p| p.nodes).max().unwrap_or(0));
@@ -142,7 +172,11 @@ pub fn check(plans: &[Plan], recs: &[RunRec]) -> Outcome {
         out.stats.inc("inconclusive.cap");
     }
     if let Some((p0, d0)) = digests.first() {
-        for (pi, d) in &digests[1..] {
+        for (n, (pi, d)) in digests.iter().enumerate().skip(1) {
+            if keys[n] != keys[0] {
+                out.stats.inc("environments_not_comparable");
+                continue;
+            }
             if d != d0 {
                 // first point of difference
                 let a: Vec<&str> = d0.split(" | ").collect();
@@ -160,6 +194,6 @@ pub fn check(plans: &[Plan], recs: &[RunRec]) -> Outcome {
             }
         }
     }
-    out.nontrivial = digests.len() >= 2;
+    out.nontrivial = keys.iter().filter(|k| **k == keys[0]).count() >= 2;
     out
 }
